@@ -9,9 +9,15 @@ structure LInv (s : LSt) : Prop where
   b : ∀ t m, m ∈ s.sh.hl t → s.sh.held m = some t
   c : ∀ t, (s.sh.hl t).Nodup
   p : ∀ m, s.sh.poi m = s.sh.pin m
+  sw : s.sh.swapped = false
+  d : ∀ t m dn, s.pcs t = .d1 m dn → m ∈ s.sh.hl t
+  e : ∀ t m, s.pcs t = .d1 m true → s.sh.poi m = true
+  f : ∀ m, s.sh.rel m = true → s.sh.poi m = true
+  g : ∀ m, s.sh.cleanAfter m = false
+  x : ∀ m t, s.sh.held m = some t → s.sh.rd m = 0
 
 theorem linv_init : LInv linit := by
-  constructor <;> simp [linit]
+  constructor <;> simp [linit, linitWith]
 
 theorem flagDone_false (g c : Bool) : flagDone g false c = false := by simp [flagDone]
 theorem flagDone_true (g c : Bool) : flagDone g true c = (!g && !c) := by simp [flagDone]
@@ -19,23 +25,26 @@ theorem flagDone_true (g c : Bool) : flagDone g true c = (!g && !c) := by simp [
 set_option maxHeartbeats 1000000 in
 theorem linv_step (s s' : LSt) (t : Nat) (tp : Bool) (e : LEnv) (h : LInv s) (hs : lstep s t tp e = some s') : LInv s' := by
   obtain ⟨sh, pcs⟩ := s
-  obtain ⟨ha, hb, hc, hp⟩ := h
-  simp only at ha hb hc hp
+  obtain ⟨ha, hb, hc, hp, hsw, hd, he, hf, hg, hx⟩ := h
+  simp only at ha hb hc hp hsw hd he hf hg hx
   simp only [lstep] at hs
   split at hs
   · contradiction
   next sh' pc' hts =>
   simp only [Option.some.injEq] at hs
   subst hs
-  generalize pcs t = pc at hts
+  generalize hpc : pcs t = pc at hts
   have hct := hc t
-  cases pc <;> cases e <;> simp only [ltstep] at hts <;> (try contradiction) <;> (repeat' split at hts) <;>
+  have hdt := hd t
+  have het := he t
+  cases pc <;> cases e <;> simp only [ltstep, hsw] at hts <;> (try contradiction) <;> (repeat' split at hts) <;>
     (try contradiction) <;> (try (simp at hts; done)) <;>
     (simp only [Option.some.injEq, Prod.mk.injEq] at hts; obtain ⟨rfl, rfl⟩ := hts)
-  all_goals first
-    | exact ⟨ha, hb, hc, hp⟩
-    | (constructor <;> simp only [flagDone_false, flagDone_true, Bool.or_false] <;>
-        grind [List.Nodup.mem_erase_iff, List.Nodup.erase, List.nodup_cons, List.mem_cons, List.mem_cons_self])
+  all_goals
+    (constructor <;> simp only [flagDone_false, flagDone_true, Bool.or_false, sawClean, upd] <;>
+        first
+        | assumption
+        | grind [List.Nodup.mem_erase_iff, List.Nodup.erase, List.nodup_cons, List.mem_cons_self])
 
 theorem linv_run (s : LSt) (sched : List (Nat × Bool × LEnv)) (h : LInv s) : LInv (lrun s sched) := by
   induction sched generalizing s with
@@ -46,5 +55,26 @@ theorem linv_run (s : LSt) (sched : List (Nat × Bool × LEnv)) (h : LInv s) : L
     split
     · next s' hs => exact ih _ (linv_step _ _ _ _ _ h hs)
     · exact ih _ h
+
+/-! the history of a stack -/
+
+theorem wnext_run (w : W) (e : Ending) (h : Bool) (hl : w.lazy = false) (hg : w.generr = none) :
+    (wrun 8 (wnext w e h)).generr = none ∧ (wrun 8 (wnext w e h)).lazy = false ∧
+    (wrun 8 (wnext w e h)).pslot = ownPayload e ∧ (wrun 8 (wnext w e h)).pc = .idle := by
+  cases e <;> simp [wrun, wstep, wnext, hl, hg, ownPayload]
+
+theorem wseq_clean (w : W) (l : List (Ending × Bool)) (hl : w.lazy = false) (hg : w.generr = none) :
+    (wseq w l).generr = none ∧ (wseq w l).lazy = false := by
+  induction l generalizing w with
+  | nil => exact ⟨hg, hl⟩
+  | cons eh r ih =>
+    obtain ⟨e, h⟩ := eh
+    have := wnext_run w e h hl hg
+    exact ih _ this.2.1 this.1
+
+theorem wseq_append (w : W) (a b : List (Ending × Bool)) : wseq w (a ++ b) = wseq (wseq w a) b := by
+  induction a generalizing w with
+  | nil => rfl
+  | cons eh r ih => obtain ⟨e, h⟩ := eh; simp [wseq, ih]
 
 end MayVerif.Panic
